@@ -3,11 +3,12 @@ SPEC = dict(
     level="proof",
     translators=[dict(cmd="tr_hook", out="Gen/HookDeleg.v")],
     observers=[dict(cmd="obs_hook", imports=["Model.Hook", "Model.HookGen"], case_type="Hook.case", check="HookGen.check_case",
-                    n={"quick": 360, "thorough": 720}, shard=200)],
-    rule="exhaustive: every derivation path of depth <= 3 over Nodes (two nodes per client), optionally ending in Dedicated or "
-         "Dedicate (45 derived clients), times every method of the resulting client (10 for clients, 7 for dedicated clients) = 360 "
-         "cases, each on a fresh WithHook(fake) with a counting hook that calls through; non-trivial: the 7 (resp. 3) request entry "
-         "points; distinct by (path, method)",
+                    n={"quick": 1080, "thorough": 2160}, shard=120)],
+    rule="exhaustive: stacks of 1, 2 and 3 counting hooks (WithHook(WithHook(fake, h1), h2) …) x every derivation path of depth <= 3 "
+         "over Nodes (two nodes per client), optionally ending in Dedicated or Dedicate (45 derived clients) x every method of the "
+         "resulting client (10 for clients, 7 for dedicated clients) = 1080 cases, each hook records and calls through; oracle: every "
+         "hook of the stack exactly once, outermost first, then the underlying client of exactly that derived client; non-trivial: "
+         "the 7 (resp. 3) request entry points; distinct by (stack, path, method)",
     trusted=["tr_hook transcribes the delegation shape of every method of hookclient/dedicated/extended in rueidishook/hook.go and "
              "fails closed on any other body; cross-checked by the observer on every entry point",
              "methods promoted from the embedded rueidis.DedicatedClient of `extended` are Go semantics (the table proves extended "
